@@ -2,17 +2,10 @@
 (* lcm.simulate.create_data_scs which the translator refuses leaves the main runner, and with it every other property, alone:  *)
 (* the regenerated create_data_scs (Gen/DataSCS.v) on the inputs lcm's own reads off the processed model (variable_info, grids,  *)
 (* the signature of the concatenated filter); the filter function itself is evaluated by the Spec.                               *)
-From LCM Require Import Base.Prelude Base.Arr Base.Json Model.Dispatchers Model.Decode.
+From LCM Require Import Base.Prelude Base.Arr Base.Json Model.Dispatchers Model.Decode Model.DecodeVI.
 From LCM Require Import Gen.ChoiceAxes Gen.ChoiceSegments Gen.DataSCS Spec.Lang Spec.Bellman.
 Local Open Scope string_scope.
 
-Definition jpair2 {A B} (fa : json -> option A) (fb : json -> option B) (j : json) : option (A * B) :=
-  match j with JList [x; y] => do a <- fa x ;; do b <- fb y ;; Some (a, b) | _ => None end.
-Definition jvarinfo (j : json) : option varinfo :=
-  match j with
-  | JList [JStr n; JList [JBool a; JBool b; JBool c; JBool d; JBool e; JBool f; JBool g; JBool h]] => Some (mkVarinfo n a b c d e f g h)
-  | _ => None
-  end.
 Definition run_data_scs (c : json) : option json :=
   do m <- jfield_of jmodel "model" c ;; do p <- jfield_of jparams "params" c ;;
   do t <- jfield_of jnat "period" c ;;
